@@ -498,6 +498,11 @@ class Gen:
             return
         self.ops.append({"k": "rawtree", "t": i})
 
+    def g_conform_inner(self):
+        i = self.pick(lambda s: s.eng == "sql")
+        if i is not None:
+            self.ops.append({"k": "conform_inner", "t": i, "node": self.rng.randrange(8)})
+
     def g_rebuild(self):
         i = self.pick()
         if i is not None:
